@@ -1,0 +1,34 @@
+//go:build verif
+
+package codegen
+
+// Machine-checked contracts for the gocv verifier (/verif/DESIGN.md). Comments only.
+// The family contracts for GENERATED code (field/object/list/entity functions) live in /verif/families and are
+// instantiated on the probe programs generated from this working tree; see DESIGN.md §2.1.
+
+// C06: the object built for the schema's mutation root - whatever its name - has concurrency disabled, the
+// subscription root is the stream object; a field of an object with concurrency disabled is never concurrent,
+// so the generated mutation executor resolves its root fields inline, one after another.
+// read-only helpers used while the object literal is being built (they do not write the schema)
+//@ trusted (*github.com/99designs/gqlgen/codegen/config.Config).IsRoot(def) (b)
+//@   pure
+//@ trusted (*github.com/99designs/gqlgen/codegen/config.ExecConfig).Pkg() (p)
+//@   pure
+//@ trusted (golang.org/x/text/cases.Caser).String(s) (r)
+//@   pure
+//@ trusted go/types.NewNamed(obj, underlying, methods) (n)
+//@   pure
+//@ trusted go/types.NewTypeName(pos, pkg, name, typ) (n)
+//@   pure
+//@ trusted golang.org/x/text/cases.Title(t, opts) (c)
+//@   pure
+//@ func (*builder).buildObject [C06]
+//@   requires b != nil && typ != nil && b.Schema != nil && b.Config != nil
+//@   at `assign obj` requires rhs0.Definition == typ && (rhs0.DisableConcurrency <==> typ == b.Schema.Mutation) && (rhs0.Stream <==> typ == b.Schema.Subscription)
+//@   ensures res1 == nil ==> res0 != nil
+//@ func (*Field).IsConcurrent [C06]
+//@   requires f != nil && f.Object != nil
+//@   ensures f.Object.DisableConcurrency ==> !res0
+//@   ensures !f.Object.DisableConcurrency ==> (res0 <==> (f.MethodHasContext || f.IsResolver))
+//@   nopanic
+//@   modifies nothing
